@@ -210,7 +210,9 @@ type Case struct {
 	Damage      []Damage   `json:"damage"`
 	DelVolumes  []int      `json:"del_volumes,omitempty"` // indices into the sorted list of recovery files
 	Bystanders  bool       `json:"bystanders,omitempty"`
-	Index       string     `json:"index,omitempty"` // index file name, default "set.par2"
+	Index       string     `json:"index,omitempty"`       // index file name, default "set.par2"
+	ForeignVol  bool       `json:"foreign_vol,omitempty"` // a volume of another recovery set named <base>.zforeign.par2
+	DupVol      bool       `json:"dup_vol,omitempty"`     // a copy of the first recovery file named <base>.dup.par2
 }
 
 // Obs is everything observed when running a Case.
@@ -342,10 +344,35 @@ func Run(c Case, skipRepair bool) *Obs {
 			os.Remove(filepath.Join(dir, v))
 			continue
 		}
-		for _, p := range par2ref.ScanTolerant(o.Outputs[v]) {
-			if p.Type == par2ref.TypeRecvSlic {
-				e, _, _ := par2ref.ParseRecovery(p.Body)
-				o.SurvExps = append(o.SurvExps, int(e))
+	}
+	base := strings.TrimSuffix(c.IndexName(), ".par2")
+	if c.DupVol && len(o.VolFiles) > 0 {
+		os.WriteFile(filepath.Join(dir, base+".dup.par2"), o.Outputs[o.VolFiles[0]], 0o644)
+	}
+	if c.ForeignVol {
+		// a conformant volume of a different recovery set (reference writer)
+		fs := par2ref.NewSet(c.Slice, map[string][]byte{"foreign.bin": []byte("this file belongs to another recovery set....")})
+		ps := append([]par2ref.Packet{fs.CreatorPacket()}, fs.CriticalPackets()...)
+		ps = append(ps, fs.RecoveryPacket(0), fs.RecoveryPacket(1))
+		os.WriteFile(filepath.Join(dir, base+".zforeign.par2"), par2ref.EncodeAll(ps), 0o644)
+	}
+	// recovery blocks actually stored beside the index file, as seen by the reference reader
+	o.SurvExps = nil
+	ownID := par2ref.NewSet(c.Slice, o.Originals).SetID()
+	if ents, err := os.ReadDir(dir); err == nil {
+		for _, e := range ents {
+			n := e.Name()
+			if e.IsDir() || !strings.HasPrefix(n, base+".") || !strings.HasSuffix(n, ".par2") || n == c.IndexName() {
+				continue
+			}
+			b, _ := os.ReadFile(filepath.Join(dir, n))
+			for _, p := range par2ref.ScanTolerant(b) {
+				if p.Type == par2ref.TypeRecvSlic && p.SetID == ownID {
+					e, data, _ := par2ref.ParseRecovery(p.Body)
+					if len(data) == c.Slice {
+						o.SurvExps = append(o.SurvExps, int(e))
+					}
+				}
 			}
 		}
 	}
